@@ -195,4 +195,5 @@ func VerifHarness_C08_OneLevel3_Thorough() { hRangeKeys(3, 1, false) }
 func VerifHarness_C08_TwoLevels() { hRangeKeys(2, 2, true) }
 
 func VerifHarness_C08_TwoLevels3_Thorough() { hRangeKeys(3, 2, false) }
-func VerifHarness_C08_OneLevel4_Thorough()  { hRangeKeys(4, 1, true) }
+
+// four range-key writes in one level did not finish within 30 minutes
